@@ -66,9 +66,9 @@ inline std::string describe_node(const ipr::Node& n);
 template<class T> std::string show_object(const T& t)
 {
    const void* p = ident(t);
-   if (p == self_ptr()) return "self";
    auto n = names().of(p);
    if (not n.empty()) return n;
+   if (p == self_ptr()) return "self";
    if constexpr (std::is_base_of_v<ipr::Node, T>) return describe_node(t);
    else if constexpr (std::is_base_of_v<ipr::Logogram, T>) return "Logogram(" + show(t.what()) + ")";
    else if constexpr (std::is_same_v<ipr::Linkage, T>) return "Linkage(" + show(t.language().what()) + ")";
@@ -126,6 +126,51 @@ template<class F> std::string guarded(F f)
    catch (...) { return "X(?)"; }
 }
 
+// the type of a sub-node (or of every element of a sub-sequence): lets C09 check borrowed and sequence types
+template<class V> std::string sub_types(const std::string& name, const V& v)
+{
+   using U = std::remove_cvref_t<V>;
+   if constexpr (is_optional<U>::value) { return v.is_valid() ? sub_types(name, v.get()) : std::string(); }
+   else if constexpr (std::is_base_of_v<ipr::Expr, U>) {
+      return name + ".type=" + guarded([&] { return show(v.type()); }) + " ";
+   }
+   else if constexpr (requires { v.size(); v.begin(); v.end(); *v.begin(); } and not std::is_base_of_v<ipr::Node, U>) {
+      if constexpr (std::is_base_of_v<ipr::Expr, std::remove_cvref_t<decltype(*v.begin())>>) {
+         std::string s = name + ".types=[";
+         std::size_t k = 0;
+         for (auto& e : v) { if (k++) s += ","; if (k > 64) { s += "..."; break; } s += guarded([&] { return show(e.type()); }); }
+         return s + "] ";
+      }
+      else return std::string();
+   }
+   else return std::string();
+}
+
+// positional access and iteration of a sequence-valued result (C14): iteration must visit size() elements and
+// agree with get(i); get(size()), get(size()+1) and get(max) must be refused with a logic_error
+template<class V> std::string seq_probe(const std::string& name, const V& v)
+{
+   using U = std::remove_cvref_t<V>;
+   if constexpr (is_optional<U>::value) { return v.is_valid() ? seq_probe(name, v.get()) : std::string(); }
+   else if constexpr (requires { v.size(); v.begin(); v.end(); *v.position(v.size()); }) {
+      std::string s = name + ".probe=";
+      std::size_t n = v.size(), count = 0;
+      bool agree = true;
+      auto walk = guarded([&] {
+         for (auto it = v.begin(); it != v.end(); ++it) {
+            if (count < n and count < 200) agree = agree and (&*it == &*v.position(count));
+            if (++count > n + 4) break;
+         }
+         return std::string("ok");
+      });
+      s += "n" + std::to_string(n) + (walk == "ok" ? "" : ":WALK-" + walk) + (count == n or walk != "ok" ? "" : ":COUNT" + std::to_string(count)) + (agree ? "" : ":DISAGREE");
+      const std::size_t idx[] = { n, n + 1, n + 1000000, std::size_t(-1) / 2, std::size_t(-1) };
+      for (auto i : idx) s += ":" + guarded([&] { (void) &*v.position(i); return std::string("ACCEPTED"); });
+      return s + " ";
+   }
+   else return std::string();
+}
+
 inline std::vector<const ipr::Parameter*>& probe_params() { static std::vector<const ipr::Parameter*> v; return v; }
 
 // read every accessor the static interface type I offers
@@ -134,7 +179,10 @@ template<class I> std::string dump(const I& x)
    std::string out;
    if constexpr (std::is_base_of_v<ipr::Node, I>) out += std::string("category=") + cat_name(x.category) + " ";
 #define ACC(N) if constexpr (requires { x.N(); }) { \
-      if constexpr (not std::is_void_v<decltype(x.N())>) out += std::string(#N "=") + guarded([&] { return show(x.N()); }) + " "; }
+      if constexpr (not std::is_void_v<decltype(x.N())>) { \
+         out += std::string(#N "=") + guarded([&] { return show(x.N()); }) + " "; \
+         if (std::string(#N) != "type") { auto st = guarded([&] { return sub_types(#N, x.N()); }); if (st != "E" and st.rfind("X(", 0) != 0) out += st; } \
+         { auto sp = guarded([&] { return seq_probe(#N, x.N()); }); if (sp != "E") out += sp; } } }
 #include "accessors.def"
 #undef ACC
    // a substitution: its value at every parameter of the pool
@@ -218,7 +266,6 @@ struct Pools {
       names().set(ident(*greg), "Rglobal");
       names().set(ident(unit.global_namespace()), "NSglobal");
       for (int i = 0; i < 12; ++i) {
-         reg(exprs, *lex.make_phantom(), "E");
          auto* c = lex.make_class(*greg); reg(types, *c, "T");
          std::u8string s = u8"id"; s += char8_t('a' + i);
          reg(ids, lex.get_identifier(s), "I");
@@ -227,6 +274,8 @@ struct Pools {
          reg(regs, *greg->make_subregion(), "R");
          words.push_back(u8"w" + std::u8string(1, char8_t('a' + i)));
       }
+      // E<i> is an expression of type T<(i+7)%12>, so that a borrowed type is distinguishable from an operand index
+      for (int i = 0; i < 12; ++i) reg(exprs, *lex.make_phantom(*types[(i + 7) % 12]), "E");
       for (int i = 0; i < 6; ++i) {
          impl::Warehouse<ipr::Type> w; for (int j = 0; j <= i; ++j) w.push_back(*types[j]);
          reg(prods, lex.get_product(w), "P");
